@@ -50,11 +50,13 @@ func ChopFile(ctx context.Context, name string, chunks []IndexChunk, ws WriteSto
 	}
 
 	// Feed the workers, stop if there are any errors
+	var interrupted bool
 loop:
 	for _, c := range chunks {
 		verifYield("chop.feed")
 		select {
 		case <-ctx.Done():
+			interrupted = true
 			break loop
 		case in <- c:
 		}
@@ -62,7 +64,13 @@ loop:
 
 	close(in)
 
-	return g.Wait()
+	if err := g.Wait(); err != nil {
+		return err
+	}
+	if interrupted { // stopped early without a worker failing, not everything was stored
+		return Interrupted{}
+	}
+	return nil
 }
 
 // Helper function to read chunk contents from file
